@@ -17,16 +17,40 @@ From IB Require Import Util.J IO.Compression.
 Import ListNotations.
 Open Scope Z_scope.
 
-(* ---------- toy codec ---------- *)
-Definition toy_tag : Z := 1000.   (* not a byte: no real content contains it *)
-Definition toy_enc (c : codec) (b : bytes) : bytes := signature c ++ toy_tag :: b.
+(* ---------- toy codec (over every registered codec) ---------- *)
 Fixpoint strip (p s : bytes) : option bytes :=
   match p, s with
   | [], _ => Some s
   | _ :: _, [] => None
   | x :: p', y :: s' => if x =? y then strip p' s' else None
   end.
-Definition toy_dec (c : codec) (s : bytes) : option bytes := strip (signature c ++ [toy_tag]) s.
+Definition cid_eqb (a b : cid) : bool :=
+  match a, b with
+  | CBuiltin x, CBuiltin y => codec_eqb x y
+  | CCustom i, CCustom j => Nat.eqb i j
+  | _, _ => false
+  end.
+(* the bytes an encoder's output starts with: the format signature of a built-in codec, the
+   declared magic of a custom one (the harness's custom codecs write their magic first) *)
+Definition sig_of (reg : list centry) (c : cid) : bytes :=
+  match c with
+  | CBuiltin b => signature b
+  | CCustom _ =>
+      match find (fun e => cid_eqb (ce_id e) c) reg with
+      | Some e => match ce_magic e with Some m => m | None => [] end
+      | None => []
+      end
+  end.
+(* not a byte: no real content contains it; different for every codec *)
+Definition toy_tag (c : cid) : Z :=
+  match c with
+  | CBuiltin Gzip => 1000 | CBuiltin Zstd => 1001 | CBuiltin Bzip2 => 1002 | CBuiltin Xz => 1003
+  | CCustom k => 2000 + Z.of_nat k
+  end.
+Definition toy_enc (reg : list centry) (c : cid) (b : bytes) : bytes :=
+  sig_of reg c ++ toy_tag c :: b.
+Definition toy_dec (reg : list centry) (c : cid) (s : bytes) : option bytes :=
+  strip (sig_of reg c ++ [toy_tag c]) s.
 
 (* ---------- independent reference (NOT the model): literal tables, own helpers ---------- *)
 Definition ref_sigs : list (Z * bytes) :=
@@ -56,10 +80,24 @@ Definition ref_ext_all (name : bytes) : list Z :=
 Definition ref_ext (name : bytes) : Z :=
   match ref_ext_all name with c :: _ => c | [] => -1 end.
 
+(* declared custom codecs (reference side): does the name carry one of their extensions (the
+   extension is compared as given with the lower-cased name), does the content start with one
+   of their magics *)
+Definition ref_custom_ext (decl : list centry) (name : bytes) : bool :=
+  existsb (fun e => existsb (fun x => (List.length x <=? List.length name)%nat
+                                      && zlist_eqb x (map ref_upper_to_lower (ref_tail (List.length x) name)))
+                            (ce_exts e)) decl.
+Definition ref_custom_magic (decl : list centry) (h : bytes) : bool :=
+  existsb (fun e => match ce_magic e with Some m => ref_is_prefix m h | None => false end) decl.
+
 Definition codec_idx (c : codec) : Z :=
   match c with Gzip => 0 | Zstd => 1 | Bzip2 => 2 | Xz => 3 end.
-Definition ocodec_idx (o : option codec) : Z :=
-  match o with Some c => codec_idx c | None => -1 end.
+Definition ocid_eqb (a b : option cid) : bool :=
+  match a, b with
+  | Some x, Some y => cid_eqb x y
+  | None, None => true
+  | _, _ => false
+  end.
 
 (* ---------- decoding ---------- *)
 Definition writer_of (z : Z) : option writer_ep :=
@@ -130,7 +168,7 @@ Definition outc_matches (r : reader_ep) (hdr : bool) (decoder_failed : bool) (ex
 Definition shards_ok (j : J) : bool := match j with JN | JI _ => true | _ => false end.
 
 (* ---------- kind "rt" ---------- *)
-Definition check_rt (input output : J) : verdict :=
+Definition check_rt_in (reg decl : list centry) (input output : J) : verdict :=
   match input with
   | JL [JI wz; JI rz; jname; jrecs; jshards] =>
       match writer_of wz, reader_of rz, jbytes jname, dec_recs jrecs, shards_ok jshards with
@@ -140,13 +178,13 @@ Definition check_rt (input output : J) : verdict :=
               match jbytes jhs, jbytes jhp, dec_outc jro with
               | Some hs, Some hp, Some ro =>
                   (* --- model: run write / read with the toy codec on the plain text's head --- *)
-                  let stored_m := write toy_enc w name hp in
-                  let wc := ep_writer_codec w name in
-                  let read_m := read toy_dec r name stored_m in
+                  let stored_m := write_in (toy_enc reg) reg w name hp in
+                  let wc := ep_writer_codec_in reg w name in
+                  let read_m := read_in (toy_dec reg) reg r name stored_m in
                   let agree :=
                     (osig =? ref_sig stored_m)
                     && Bool.eqb osame (zlist_eqb stored_m hp)
-                    && (match wc with None => zlist_eqb hs hp | Some c => starts_with (signature c) hs end)
+                    && (match wc with None => zlist_eqb hs hp | Some c => starts_with (sig_of reg c) hs end)
                     && (match read_m with
                         | Some x => zlist_eqb x hp && is_ok_with ro recs
                         | None => is_fail r false ro
@@ -156,9 +194,15 @@ Definition check_rt (input output : J) : verdict :=
                   let prop :=
                     if writer_detects w then
                       if e =? -1 then
+                        if ref_custom_ext decl name then
+                          (* a registered custom codec claims the name: outside the property
+                             (the model still has to predict it: `agree`) *)
+                          true
+                        else
                         (* neutral name: stored verbatim; read back verbatim unless the text
-                           really begins with a format signature *)
-                        osame && (if ref_sig hp =? -1 then is_ok_with ro recs else true)
+                           really begins with a format signature (or a registered magic) *)
+                        osame && (if (ref_sig hp =? -1) && negb (ref_custom_magic decl hp)
+                                  then is_ok_with ro recs else true)
                       else
                         (* codec name: stored compressed with that codec, reads back identical *)
                         (osig =? e) && negb osame && is_ok_with ro recs
@@ -168,7 +212,8 @@ Definition check_rt (input output : J) : verdict :=
                   ok_verdict agree prop
               | _, _, _ => malformed
               end
-          | JL [t] => if jtag_is "werr" t then ok_verdict false false else malformed
+          | JL [t] => if jtag_is "werr" t || jtag_is "panic" t then ok_verdict false false
+                      else malformed
           | _ => malformed
           end
       | _, _, _, _, _ => malformed
@@ -194,7 +239,7 @@ Definition dec_origin (j : J) : option origin :=
   | _ => None
   end.
 
-Definition check_raw (input output : J) : verdict :=
+Definition check_raw_in (reg decl : list centry) (input output : J) : verdict :=
   match input with
   | JL [JI rz; jname; jorigin; JB hdr] =>
       match reader_of rz, jbytes jname, dec_origin jorigin with
@@ -208,15 +253,15 @@ Definition check_raw (input output : J) : verdict :=
                   let ed := match org with OEnc _ _ rs => OOk rs | OLit _ => OErr end in
                   (* --- model --- *)
                   let content_m :=
-                    match org with OLit b => b | OEnc w en _ => write toy_enc w en [] end in
-                  let rc := ep_reader_codec r name content_m in
+                    match org with OLit b => b | OEnc w en _ => write_in (toy_enc reg) reg w en [] end in
+                  let rc := ep_reader_codec_in reg r name content_m in
                   let '(expect, decfail) :=
                     match rc with
                     | None => (ev, false)                         (* handed to the parser verbatim *)
                     | Some c =>
                         match org with
                         | OEnc w en _ =>
-                            if ocodec_idx (ep_writer_codec w en) =? codec_idx c then (ed, false)
+                            if ocid_eqb (ep_writer_codec_in reg w en) (Some c) then (ed, false)
                             else (OErr, true)
                         | OLit _ => (OErr, true)                  (* decoder on foreign bytes *)
                         end
@@ -225,8 +270,8 @@ Definition check_raw (input output : J) : verdict :=
                     match org with
                     | OLit b => zlist_eqb h (firstn 16 b)
                     | OEnc w en _ =>
-                        match ep_writer_codec w en with
-                        | Some c => starts_with (signature c) h
+                        match ep_writer_codec_in reg w en with
+                        | Some c => starts_with (sig_of reg c) h
                         | None => true
                         end
                     end in
@@ -234,13 +279,16 @@ Definition check_raw (input output : J) : verdict :=
                   (* --- property instance --- *)
                   let e := ref_ext name in
                   let s := ref_sig h in
+                  let custom := ref_custom_ext decl name || ref_custom_magic decl h in
                   let prop :=
+                    if custom then true else
                     match org with
                     | OLit _ =>
                         if (e =? -1) && (s =? -1) then outc_matches r hdr false ev ro else true
                     | OEnc w en _ =>
                         let ce := ref_ext en in
                         if ce =? -1 then true
+                        else if negb (writer_detects w) then true
                         else if e =? -1 then (s =? ce) && outc_matches r hdr false ed ro
                         else if e =? ce then outc_matches r hdr false ed ro
                         else true
@@ -248,6 +296,8 @@ Definition check_raw (input output : J) : verdict :=
                   ok_verdict agree prop
               | _, _, _ => malformed
               end
+          | JL [t] => if jtag_is "werr" t || jtag_is "panic" t then ok_verdict false false
+                      else malformed
           | _ => malformed
           end
       | _, _, _ => malformed
@@ -255,7 +305,69 @@ Definition check_raw (input output : J) : verdict :=
   | _ => malformed
   end.
 
+(* kinds "rt" / "raw": a process that never calls register_codec *)
+Definition no_ops : list reg_op := [].
+Definition check_rt (input output : J) : verdict :=
+  check_rt_in (reg_view (reg_run no_ops)) [] input output.
+Definition check_raw (input output : J) : verdict :=
+  check_raw_in (reg_view (reg_run no_ops)) [] input output.
+
+(* ---------- kind "proc": a script run in a FRESH process ----------
+   in  = [steps]; step = ["reg", k, [ext, ...], magic | null, key]
+                       | ["rt", w, r, name, recs, shards] | ["raw", r, name, origin, hdr]
+   out = [tag, [step output, ...]]; a "reg" step outputs ["reg"], the others what the kinds
+   "rt" / "raw" output.  The model state is the list of registry operations so far: every
+   I/O step sees reg_view (reg_run ops) and counts as a get_registry call. *)
+Definition dec_reg (j : list J) : option centry :=
+  match j with
+  | [JI k; JL exts; jm; JI _] =>
+      match omap jbytes exts with
+      | Some es =>
+          match jm with
+          | JN => Some {| ce_id := CCustom (Z.to_nat k); ce_exts := es; ce_magic := None |}
+          | _ => match jbytes jm with
+                 | Some m => Some {| ce_id := CCustom (Z.to_nat k); ce_exts := es; ce_magic := Some m |}
+                 | None => None
+                 end
+          end
+      | None => None
+      end
+  | _ => None
+  end.
+
+Definition vand (a b : verdict) : verdict :=
+  V (v_agree a && v_agree b) (v_prop a && v_prop b) (v_known a || v_known b)
+    (v_malformed a || v_malformed b).
+
+Fixpoint check_steps (ops : list reg_op) (decl : list centry) (steps outs : list J) : verdict :=
+  match steps, outs with
+  | [], [] => ok_verdict true true
+  | JL (t :: args) :: steps', o :: outs' =>
+      if jtag_is "reg" t then
+        match dec_reg args, o with
+        | Some e, JL [t'] =>
+            if jtag_is "reg" t' then check_steps (ops ++ [OpRegister e]) (decl ++ [e]) steps' outs'
+            else malformed
+        | _, _ => malformed
+        end
+      else
+        let reg := reg_view (reg_run ops) in
+        let v := if jtag_is "rt" t then check_rt_in reg decl (JL args) o
+                 else if jtag_is "raw" t then check_raw_in reg decl (JL args) o
+                 else malformed in
+        vand v (check_steps (ops ++ [OpGet]) decl steps' outs')
+  | _, _ => malformed
+  end.
+
+Definition check_proc (input output : J) : verdict :=
+  match input, output with
+  | JL [JL steps], JL [_; JL outs] => check_steps [] [] steps outs
+  | JL [JL _], JL [t] => if jtag_is "abort" t then ok_verdict false false else malformed
+  | _, _ => malformed
+  end.
+
 Definition check_C10 (kind : string) (input output : J) : verdict :=
   if String.eqb kind "rt" then check_rt input output
   else if String.eqb kind "raw" then check_raw input output
+  else if String.eqb kind "proc" then check_proc input output
   else malformed.
